@@ -75,6 +75,7 @@ let parse_step (toks : string list) : hstep =
           s_payload = n_of_int (int_of_string payload); s_cat = (cat = "1");
           s_exit = z_of_int (int_of_string ex) })
   | ["R"; name] -> SRemove (bytes_of_string name)
+  | ["H"; names] -> SHint (List.map bytes_of_string (split_list names))
   | ["C"; c; k; ts] ->
       let ts = List.map bytes_of_string (split_list ts) in
       let k = (k = "k1") in
@@ -137,6 +138,7 @@ let run_hist (line : string) : string =
   let rec nat_of_int i = if i <= 0 then O else S (nat_of_int (i - 1)) in
   let h = List.map parse_step steps in
   let res = run_history h (init_world (nat_of_int depth)) in
+  let res = List.filter_map (fun (st, x) -> match st with SHint _ -> None | _ -> Some x) (List.combine h res) in
   String.concat " ;; " (List.map (fun (w, o) -> show_output o ^ " " ^ digest w) res)
 
 let () =
